@@ -20,7 +20,7 @@ CHECKS.update({
 CHECKS.update({
  "C01": ("post-condition on the real identify_outcomes/identify: estimand denoted on K random positive SCMs (exact rational functional-SCM engine O1/O2) vs P(y|do x) for all assignments; hostile ADMG generator + trace-guided feedback towards line 7; example-graph corpus",
          "Each returned estimand is evaluated exactly on sampled compatible models and compared with the model's own interventional distribution for every value assignment, including every other free variable. Held = equal on all (case, model, assignment) triples listed in the evidence.",
-         "trusts O1/O2 and the reading conventions of DESIGN §3; models are sampled, n<=6 nodes", "DESIGN §4 C01"),
+         "trusts O1/O2 and the reading conventions of DESIGN §3; models are sampled; at most 6 live variables per model (graphs of 10-14 nodes are driven with the other nodes as one-valued constants)", "DESIGN §4 C01, §11.7"),
  "C02": ("exception recorder + deep-freeze snapshots + Tian-Pearl reference verdict (O4) + activation counter on the real identify_outcomes/identify; exhaustive ADMGs n<=3 x all queries, random hostile ADMGs n<=8, 40-call histories on a shared graph",
          "Totality, purity, completeness and bounded progress are decided per call by independent monitors. Held = no monitor fired on the executions listed.",
          "trusts O4 (sound and complete reference identifiability); graphs beyond 3 nodes are sampled", "DESIGN §4 C02"),
@@ -55,7 +55,7 @@ CHECKS.update({
          "Every returned c-factor expression is compared with the model's own Q[C] on all assignments; every internal lemma call whose input denotes Q of its set must return Q of the requested set. Held = equal everywhere evaluated.",
          "trusts O1/O2; sampled models (n<=5)", "DESIGN §4 C17"),
  "C18": ("post-condition on the real make_counterfactual_graph (own workload + the calls ID* makes): relabelled event evaluated in the ORIGINAL model on K functional SCMs with shared noise (exact) vs the original event; 'inconsistent' refuted by a positive-probability witness model; structural clauses on the returned graph by reference set algebra; input snapshots",
-         "Probability preservation, the only-if clause of 'inconsistent' and the structural clauses are decided on every call. Held = no monitor fired.",
+         "Probability preservation, the only-if clause of 'inconsistent', the structural clauses and what the returned graph claims about the relabelled event (independence across connected components / of m-separated event variables) are decided on every call. Held = no monitor fired.",
          "trusts O1 multi-world evaluation and O3; sampled models", "DESIGN §4 C18"),
  "C07": ("post-condition on the real id_star: expression read per DESIGN §3 (event values, literal subscripts with Sum-bound override tried both ways, universal reading of unvalued free variables, existential reading of doubly valued names) vs P(event) on K functional SCMs with shared noise (exact); Zero refuted by witness models; exception recorder; finding predicates from wrapped line-6/line-9 helpers",
          "Each answer is compared with the probability of the queried conjunction in every sampled model. Held = no violation outside the four listed mechanisms (their hit counts and the clean-region count are in the evidence).",
@@ -66,7 +66,7 @@ CHECKS.update({
 })
 CHECKS.update({
  "C05": ("post-condition on the real identify_target_outcomes: estimand evaluated on FAMILIES of exact random SCMs (target + per-domain copies re-drawn exactly at the independently recomputed differing nodes, compared with y0's T_ nodes) vs P*(y|do x) for all assignments; no-domain verdict vs Tian-Pearl reference; exception recorder; argument snapshots; generator biased beyond plain identifiability",
-         "Soundness of every returned estimand on sampled families, the ID-equivalence clause without domains and totality are decided per call. Held = no violation outside the listed mechanism.",
+         "Soundness of every returned estimand on sampled families, the ID-equivalence clause without domains and totality are decided per call. Held = no monitor fired (no finding is listed for this property any more: the former one was repaired).",
          "trusts O1/O2, the reading of PP[pi_i][Z'] as the experiment do(Z'=context value) in domain i, and the published selection-diagram construction", "DESIGN §4 C05"),
  "C06": ("syntactic-walk post-conditions on all five entry points (ID, IDC, TRSO, ID*, IDC*) over a large structural-only workload (no model evaluation), plus the same walk riding on the C01/C03/C05/C07/C08 workloads",
          "Every returned expression is walked leaf by leaf against the vocabulary its algorithm is allowed. Held = no foreign leaf on the executions listed.",
@@ -74,7 +74,7 @@ CHECKS.update({
 })
 CHECKS.update({
  "C19": ("post-conditions on the real minimize_counterfactual (value arrays over the whole exogenous-noise grid of exact SCMs: the SAME random variable; subscripts vs x ∩ An(Y) in G-bar-X), simplify (probability preserved, 'impossible' refuted by witness models, exception recorder), get_ancestors_of_counterfactual (Definition 2.1 by set algebra), get_ancestral_components (Definition 4.2), do_counterfactual_factor_factorization (sum-product vs P(query) on exact SCMs, existential over subscript conventions)",
-         "Each of the five building blocks is judged on every call against its published definition / the model. Held = no violation outside the listed mechanisms.",
+         "Each of the five building blocks - and the ctf-factor helpers behind the factorisation (form test, grouping by district, conversion, Eq. 11-15 structure) - is judged on every call against its published definition / the model. Held = no violation outside the listed mechanisms.",
          "trusts O1/O3 and my reading of Definitions 2.1 and 4.2; listed findings mask further defects in their sub-families", "DESIGN §4 C19"),
 })
 CHECKS.update({
